@@ -145,16 +145,22 @@ def perturb(rng, pkts, kind):
             new = dict(out[a], frame=rebuild(a, pa[:rng.randrange(1, len(pa))]))
             j = rng.randrange(a + 1, len(out) + 1)
         out.insert(j, new)
-    elif kind == "late":                         # a data segment (not the first of its direction) captured after the next ones
-        first = {}
+    elif kind == "late":
+        # a data segment is overtaken by the next 1..3 data segments OF ITS OWN DIRECTION: the slots that direction's segments occupy in
+        # the capture stay where they are (the interleaving with the other direction is untouched), only which segment sits in which
+        # slot changes.  The first data segment of a direction stays first (that displacement is a recorded finding of C05).
+        by_dir = {}
         for i in data:
-            first.setdefault(out[i]["isserver"], i)
-        cands = [i for i in data if i != first[out[i]["isserver"]] and i + 1 < len(out)]
+            by_dir.setdefault(out[i]["isserver"], []).append(i)
+        cands = [(d, a) for d, idx in by_dir.items() for a in range(1, len(idx) - 1)]
         if not cands:
             return None
-        i = rng.choice(cands)
-        p = out.pop(i)
-        out.insert(min(len(out), i + rng.randrange(1, 4)), p)
+        d, a = rng.choice(cands)
+        idx = by_dir[d]
+        b = min(len(idx) - 1, a + rng.randrange(1, 4))
+        moved = [out[i] for i in idx[a + 1:b + 1]] + [out[idx[a]]]
+        for slot, p in zip(idx[a:b + 1], moved):
+            out[slot] = p
     else:
         raise ValueError(kind)
     t = out[0]["ts"]
